@@ -6,6 +6,7 @@
 #include "upipe/uprobe_uclock.h"
 #include "upipe/uref_block_flow.h"
 #include "upipe/ulog.h"
+#include "upipe-modules/upipe_probe_uref.h"
 #include <stdlib.h>
 #include <stdio.h>
 
@@ -59,6 +60,18 @@ static int pfx_probe_throw(struct uprobe *uprobe, struct upipe *upipe, int event
         if (!t->saw_nonlog) { t->saw_nonlog = true; t->first_nonlog_is_ready = (event == UPROBE_READY); }
         if (event == UPROBE_READY) { t->ready = true; t->ready_seq = e->seq; }
         if (event == UPROBE_DEAD) { t->dead_count++; if (!t->dead) { t->dead = true; t->dead_seq = e->seq; } }
+    }
+    if (event == UPROBE_PROBE_UREF && pfx->probe_uref_hook != NULL && upipe != NULL && !t->dead) {
+        va_list ap; va_copy(ap, args);
+        if (va_arg(ap, unsigned int) == UPIPE_PROBE_UREF_SIGNATURE) {
+            struct uref *uref = va_arg(ap, struct uref *);
+            (void)va_arg(ap, struct upump **);
+            bool *drop = va_arg(ap, bool *);
+            va_end(ap);
+            if (pfx->probe_uref_hook(pfx, p->id, upipe, uref, pfx->probe_uref_opaque)) *drop = true;
+            return UBASE_ERR_NONE;
+        }
+        va_end(ap);
     }
     if (event == UPROBE_NEED_OUTPUT && pfx->need_output_hook != NULL && upipe != NULL && !t->dead) {
         int r = pfx->need_output_hook(pfx, p->id, upipe, pfx->need_output_opaque);
